@@ -331,7 +331,7 @@ func (s *synth) fillFile(f *mFile, nStructs int, main bool) {
 		}
 	}
 	// interfaces (declared before struct bodies so fields can hold them)
-	nIf := 2 + rng.Intn(3)
+	nIf := 3 + rng.Intn(3)
 	prevIfs := append([]*mNode{}, s.ifaces...)
 	var ifs []*mNode
 	for i := 0; i < nIf; i++ {
@@ -604,6 +604,8 @@ func (s *synth) genStruct(n *mNode, idx int) {
 	switch {
 	case s.opts.Systematic && idx < len(dataKinds):
 		s.gridStruct(n, a, dataKinds[idx], used)
+	case s.opts.Systematic && idx == len(dataKinds):
+		s.shadowStruct(n, a, used)
 	case rng.Chance(1, 30):
 		nf = 0 // empty struct
 		s.genFields(n, n, a, nf, 0, used)
@@ -678,6 +680,33 @@ func (s *synth) gridStruct(n *mNode, a *alloc, kind string, used map[string]bool
 		}
 	}
 	s.genFields(n, n, a, 4+s.rng.Intn(6), 0, used)
+}
+
+// shadowStruct: data fields whose accessors shadow every promoted method of
+// the embedded capnp.Struct that generated code might be tempted to call
+// through the generated type, next to one field of every pointer kind (with
+// and without union membership).  Legal schema; the output must compile.
+func (s *synth) shadowStruct(n *mNode, a *alloc, used map[string]bool) {
+	names := []string{"segment", "message", "size", "isValid", "toPtr", "copyFrom", "ptr", "bit", "uint8", "uint16", "uint32", "uint64"}
+	for i, nm := range names {
+		used[nm] = true
+		f := &mField{Name: nm, Disc: noDisc, T: s.genType(dataKinds[i%len(dataKinds)], 0)}
+		f.Off = a.data(f.T.bits())
+		n.Fields = append(n.Fields, f)
+	}
+	for _, k := range ptrKinds {
+		f := &mField{Name: s.fieldName(used), Disc: noDisc, T: s.genType(k, 0)}
+		f.Off = a.ptr()
+		n.Fields = append(n.Fields, f)
+	}
+	// a union whose members are one of each pointer kind
+	n.DiscOffset = a.data(16)
+	for i, k := range ptrKinds {
+		f := &mField{Name: s.fieldName(used), Disc: uint16(i), T: s.genType(k, 0)}
+		f.Off = a.ptr()
+		n.Fields = append(n.Fields, f)
+	}
+	n.DiscCount = uint16(len(ptrKinds))
 }
 
 // genFields appends `count` fields (plus possibly a union) to node n, which is
@@ -803,14 +832,14 @@ func (s *synth) genUnion(base, n *mNode, a *alloc, depth int, used map[string]bo
 
 func (s *synth) genIface(n *mNode, idx int, earlier []*mNode) {
 	rng := s.rng
-	// 0..3 distinct superclasses among the interfaces whose bodies exist
+	// 0..4 distinct superclasses among the interfaces whose bodies exist
 	// (earlier ones of this file, all of the imported file); diamonds happen
 	for _, c := range earlier {
-		if len(n.Supers) < 3 && rng.Chance(2, 5) {
+		if len(n.Supers) < 4 && rng.Chance(1, 2) {
 			n.Supers = append(n.Supers, c)
 		}
 	}
-	k := rng.Intn(4)
+	k := 1 + rng.Intn(3)
 	for i := 0; i < k; i++ {
 		m := &mMethod{Name: fmt.Sprintf("m%dx%dx%d", s.fileIdx, idx, i)}
 		if idx == 0 && s.fileIdx == 0 && rng.Chance(1, 4) {
